@@ -54,6 +54,8 @@ def extract(defines=(), tag="default"):
     """-> directory with one json per unit"""
     ensure_extractor()
     units, bdir = compdb.load()
+    if os.path.realpath(REPO) != "/repo":
+        tag += "-s" + hashlib.sha256(os.path.realpath(REPO).encode()).hexdigest()[:6]
     key = tree_hash(tag + " ".join(defines))
     fdir = os.path.join(CACHE, "facts-%s-%s" % (tag, key))
     done = os.path.join(fdir, "DONE")
